@@ -63,6 +63,10 @@ EXPLANATION += (
     ' Round 9: every return after the sorting of a request passes through a use of the permutation or its inverse (R-PERM/unsort-before-return, generalised).'
 )
 
+EXPLANATION += (
+    ' Round 10: index arrays are widened before they are multiplied by a size (R-CAP/index-arithmetic-widened); batch searches record before they stop (R-COVER/batch-search).'
+)
+
 RULE_TEXT = (
     "one obligation per step / chunk-extent site, per range relation of "
     "the dispatch loop, per piece-list mutation, per dispatcher x member")
